@@ -244,6 +244,16 @@ def _exec_wide(args):
                 if row_.get('k') != 'arith':
                     break
                 acc = common.unwint(row_['cz'][0])
+        # constants added to / multiplied into a wrap register (the constant is converted like the register, i.e. wraps as well)
+        for _ in range(count // 2 + 1):
+            s = rng.random() < 0.5
+            w = rng.choice([4, 8, 12, 16])
+            t = (s, w, rng.choice([0, 0, 2]))
+            lo, hi = ((-(1 << (w - 1)), (1 << (w - 1)) - 1) if s else (0, (1 << w) - 1))
+            cxs = [rng.randint(lo, hi) for _ in range(4)]
+            c = F(rng.choice([hi + 45, 3 * (hi + 1) + 7, -(hi + 2), 300, 1, -1, 44]), 1 << t[2]) * (1 << t[2]) if rng.random() < 0.7 else F(rng.randint(-4 * hi, 4 * hi), 4)
+            out.append(x_arith.observe_const(fx, np, ['C03'], rng.choice(['add', 'sub', 'mul']), t, cxs, c, rng.choice(['right', 'left', 'inplace']), 'same', 'same',
+                                             (rng.choice(ROUND), 'wrap'), method=rng.choice(['raw', 'repr']), extra={'register': True}))
         # the register is an explicit out= / out_like= object in wrap mode fed by operands of OTHER formats and signedness
         # (no fractional narrowing: the register's n_frac is the exact result's)
         for _ in range(count // 2 + 1):
